@@ -784,4 +784,311 @@ theorem searchArr_spec (law : Lawful o valid) {kv : KV} {vals : Id → List V} (
     · rintro ⟨q, hq, h⟩
       exact ⟨_, List.mem_map.2 ⟨q, hq, rfl⟩, (h1 q hq).2 h⟩
 
+/-! ## the point store, as far as the indexes depend on it -/
+
+def updD (D : Id → Option Val) (id : Id) (d : Option Val) : Id → Option Val := fun i => if i = id then d else D i
+
+/-- the `IndexPointChange`s of a batch are consistent with the point store: each names the document
+the point held before it -/
+inductive PChain : (Id → Option Val) → List PChange → (Id → Option Val) → Prop
+  | nil (D) : PChain D [] D
+  | cons {D pc rest D'} : D pc.id = pc.prev → PChain (updD D pc.id pc.cur) rest D' → PChain D (pc :: rest) D'
+
+def NodupIds (pts : List Point) : Prop := pts.Pairwise fun a b => a.id ≠ b.id
+def NodupUuids (pts : List Point) : Prop := pts.Pairwise fun a b => a.uuid ≠ b.uuid
+
+theorem docOf_nil (i : Id) : docOf [] i = none := rfl
+
+theorem docOf_cons (p : Point) (pts : List Point) (i : Id) :
+    docOf (p :: pts) i = if p.id = i then some p.doc else docOf pts i := by
+  unfold docOf
+  by_cases h : p.id = i
+  · rw [List.find?_cons_of_pos (by simpa using h)]; simp [h]
+  · rw [List.find?_cons_of_neg (by simpa using h)]; simp [h]
+
+theorem docOf_eq_none_iff (pts : List Point) (i : Id) : docOf pts i = none ↔ ∀ p ∈ pts, p.id ≠ i := by
+  induction pts with
+  | nil => simp [docOf_nil]
+  | cons p pts ih =>
+    rw [docOf_cons]
+    by_cases h : p.id = i
+    · simp [h]
+    · simp [h, ih]
+
+theorem docOf_of_mem {pts : List Point} (hn : NodupIds pts) {p : Point} (hp : p ∈ pts) : docOf pts p.id = some p.doc := by
+  induction pts with
+  | nil => simp at hp
+  | cons q pts ih =>
+    have ⟨hq, hn'⟩ := List.pairwise_cons.1 hn
+    rw [docOf_cons]
+    rcases List.mem_cons.1 hp with rfl | hp
+    · simp
+    · rw [if_neg (hq p hp)]; exact ih hn' hp
+
+theorem docOf_append_one (pts : List Point) (p : Point) (hf : docOf pts p.id = none) :
+    docOf (pts ++ [p]) = updD (docOf pts) p.id (some p.doc) := by
+  funext i
+  unfold updD
+  induction pts with
+  | nil =>
+    simp only [List.nil_append, docOf_cons, docOf_nil]
+    by_cases h : p.id = i
+    · simp [h]
+    · have : ¬ i = p.id := fun h' => h h'.symm
+      simp [h, this]
+  | cons q pts ih =>
+    rw [docOf_cons] at hf
+    by_cases hq : q.id = p.id
+    · simp [hq] at hf
+    · rw [if_neg hq] at hf
+      simp only [List.cons_append, docOf_cons]
+      by_cases hqi : q.id = i
+      · have : i ≠ p.id := fun h => hq (hqi.trans h)
+        simp [hqi, this]
+      · simp only [hqi, if_false]; exact ih hf
+
+theorem docOf_map_set (pts : List Point) (j : Id) (d : Val) :
+    docOf (pts.map fun x => if x.id == j then { x with doc := d } else x) =
+      fun i => if i = j then (docOf pts i).map (fun _ => d) else docOf pts i := by
+  funext i
+  induction pts with
+  | nil => simp [docOf_nil]
+  | cons q pts ih =>
+    simp only [List.map_cons, docOf_cons]
+    by_cases hqj : q.id = j
+    · simp only [hqj, BEq.rfl, if_true]
+      by_cases hji : j = i
+      · simp [hji]
+      · have : i ≠ j := Ne.symm hji
+        simp only [hji, if_false, this]; rw [ih]; simp [this]
+    · have : (q.id == j) = false := by simpa using hqj
+      simp only [this, Bool.false_eq_true, if_false]
+      by_cases hqi : q.id = i
+      · have : i ≠ j := fun h => hqj (hqi.trans h)
+        simp [hqi, this]
+      · simp only [hqi, if_false]; exact ih
+
+theorem docOf_filter_ne (pts : List Point) (j : Id) :
+    docOf (pts.filter fun x => !(x.id == j)) = fun i => if i = j then none else docOf pts i := by
+  funext i
+  induction pts with
+  | nil => simp [docOf_nil]
+  | cons q pts ih =>
+    by_cases hqj : q.id = j
+    · rw [List.filter_cons_of_neg (by simp [hqj]), ih, docOf_cons]
+      by_cases hij : i = j
+      · simp [hij]
+      · have : q.id ≠ i := by rw [hqj]; exact Ne.symm hij
+        simp [hij, this]
+    · rw [List.filter_cons_of_pos (by simpa using hqj), docOf_cons, docOf_cons, ih]
+      by_cases hqi : q.id = i
+      · have : i ≠ j := fun h => hqj (hqi.trans h)
+        simp [hqi, this]
+      · simp [hqi]
+
+theorem nodupIds_map_set {pts : List Point} (hn : NodupIds pts) (j : Id) (d : Val) :
+    NodupIds (pts.map fun x => if x.id == j then { x with doc := d } else x) := by
+  unfold NodupIds at *
+  rw [List.pairwise_map]
+  refine hn.imp ?_
+  intro a b hab
+  by_cases ha : (a.id == j) = true <;> by_cases hb : (b.id == j) = true <;> simp [ha, hb, hab]
+
+theorem nodupUuids_map_set {pts : List Point} (hn : NodupUuids pts) (j : Id) (d : Val) :
+    NodupUuids (pts.map fun x => if x.id == j then { x with doc := d } else x) := by
+  unfold NodupUuids at *
+  rw [List.pairwise_map]
+  refine hn.imp ?_
+  intro a b hab
+  by_cases ha : (a.id == j) = true <;> by_cases hb : (b.id == j) = true <;> simp [ha, hb, hab]
+
+theorem insert_chain (pts ps : List Point) (hfresh : ∀ p ∈ ps, docOf pts p.id = none) (hnd : NodupIds ps) :
+    PChain (docOf pts) (ps.map fun p => ⟨p.id, none, some p.doc⟩) (docOf (pts ++ ps)) := by
+  induction ps generalizing pts with
+  | nil => simpa using PChain.nil _
+  | cons p ps ih =>
+    have ⟨hp, hnd'⟩ := List.pairwise_cons.1 hnd
+    have hf := hfresh p (List.mem_cons_self ..)
+    simp only [List.map_cons]
+    refine PChain.cons hf ?_
+    rw [← docOf_append_one pts p hf]
+    have : pts ++ p :: ps = (pts ++ [p]) ++ ps := by simp
+    rw [this]
+    apply ih _ _ hnd'
+    intro q hq
+    rw [docOf_append_one pts p hf]
+    unfold updD
+    rw [if_neg (Ne.symm (hp q hq))]
+    exact hfresh q (List.mem_cons_of_mem _ hq)
+
+theorem update_chain (pts : List Point) (us : List (String × Val)) (hn : NodupIds pts) (hu : NodupUuids pts) :
+    PChain (docOf pts) (updateAll pts us).2 (docOf (updateAll pts us).1) ∧
+    NodupIds (updateAll pts us).1 ∧ NodupUuids (updateAll pts us).1 := by
+  induction us generalizing pts with
+  | nil => exact ⟨PChain.nil _, hn, hu⟩
+  | cons u us ih =>
+    unfold updateAll
+    cases hf : pts.find? (fun p => p.uuid == u.1) with
+    | none => exact ih pts hn hu
+    | some p =>
+      simp only []
+      have hp : p ∈ pts := List.mem_of_find?_eq_some hf
+      obtain ⟨hc, hn', hu'⟩ := ih _ (nodupIds_map_set hn p.id (mergeDoc p.doc u.2)) (nodupUuids_map_set hu p.id (mergeDoc p.doc u.2))
+      refine ⟨PChain.cons (docOf_of_mem hn hp) ?_, hn', hu'⟩
+      have : updD (docOf pts) p.id (some (mergeDoc p.doc u.2)) =
+          docOf (pts.map fun x => if x.id == p.id then { x with doc := mergeDoc p.doc u.2 } else x) := by
+        rw [docOf_map_set]
+        funext i
+        unfold updD
+        by_cases hi : i = p.id
+        · subst hi; simp [docOf_of_mem hn hp]
+        · simp [hi]
+      simp only [] at hc ⊢
+      rw [this]; exact hc
+
+theorem delete_chain (pts : List Point) (us : List String) (hn : NodupIds pts) (hu : NodupUuids pts) :
+    PChain (docOf pts) (deleteAll pts us).2 (docOf (deleteAll pts us).1) ∧
+    NodupIds (deleteAll pts us).1 ∧ NodupUuids (deleteAll pts us).1 := by
+  induction us generalizing pts with
+  | nil => exact ⟨PChain.nil _, hn, hu⟩
+  | cons u us ih =>
+    unfold deleteAll
+    cases hf : pts.find? (fun p => p.uuid == u) with
+    | none => exact ih pts hn hu
+    | some p =>
+      simp only []
+      have hp : p ∈ pts := List.mem_of_find?_eq_some hf
+      obtain ⟨hc, hn', hu'⟩ := ih (pts.filter fun x => !(x.id == p.id)) (hn.filter _) (hu.filter _)
+      refine ⟨PChain.cons (docOf_of_mem hn hp) ?_, hn', hu'⟩
+      have : updD (docOf pts) p.id none = docOf (pts.filter fun x => !(x.id == p.id)) := by
+        rw [docOf_filter_ne]; rfl
+      simp only [] at hc ⊢
+      rw [this]; exact hc
+
+/-- what a chain leaves behind: every final document is an initial one or one written by the batch -/
+theorem PChain.preserves {P : Option Val → Prop} {D D' : Id → Option Val} {pcs : List PChange}
+    (h : PChain D pcs D') (hD : ∀ i, P (D i)) (hcur : ∀ pc ∈ pcs, P pc.cur) :
+    (∀ pc ∈ pcs, P pc.prev) ∧ ∀ i, P (D' i) := by
+  induction h with
+  | nil D => exact ⟨by simp, hD⟩
+  | cons hprev _ ih =>
+    rename_i D pc rest D' _
+    have hD1 : ∀ i, P (updD D pc.id pc.cur i) := by
+      intro i; unfold updD; split
+      · exact hcur pc (List.mem_cons_self ..)
+      · exact hD i
+    obtain ⟨h1, h2⟩ := ih hD1 (fun x hx => hcur x (List.mem_cons_of_mem _ hx))
+    refine ⟨?_, h2⟩
+    intro x hx
+    rcases List.mem_cons.1 hx with rfl | hx
+    · rw [← hprev]; exact hD _
+    · exact h1 x hx
+
+/-! ## from point changes to index changes (dispatch) -/
+
+theorem toChange_chain (cast : Val → Option V) (path : List String) {D D' : Id → Option Val} {pcs : List PChange}
+    (h : PChain D pcs D') :
+    Chain (fun i => ((getProp (D i) path).bind cast).toList) (pcs.filterMap (toChange cast path))
+      (fun i => ((getProp (D' i) path).bind cast).toList) := by
+  induction h with
+  | nil D => exact Chain.nil _
+  | cons hprev _ ih =>
+    rename_i D pc rest D' _
+    have hupd : ∀ l : List V, l = ((getProp pc.cur path).bind cast).toList →
+        upd (fun i => ((getProp (D i) path).bind cast).toList) pc.id l =
+        fun i => ((getProp (updD D pc.id pc.cur i) path).bind cast).toList := by
+      intro l hl
+      funext i; unfold upd updD
+      by_cases hi : i = pc.id <;> simp [hi, hl]
+    cases hp : getProp pc.prev path with
+    | none =>
+      cases hc : getProp pc.cur path with
+      | none =>
+        have : toChange cast path pc = none := by simp [toChange, hp, hc]
+        rw [List.filterMap_cons_none this]
+        have hsame : (fun i => ((getProp (updD D pc.id pc.cur i) path).bind cast).toList) =
+            fun i => ((getProp (D i) path).bind cast).toList := by
+          funext i; unfold updD
+          by_cases hi : i = pc.id
+          · subst hi; simp [hc, hprev, hp]
+          · simp [hi]
+        rw [hsame] at ih; exact ih
+      | some c =>
+        have : toChange cast path pc = some ⟨pc.id, none, cast c⟩ := by simp [toChange, hp, hc]
+        rw [List.filterMap_cons_some this]
+        refine Chain.cons ?_ ?_
+        · simp [hprev, hp]
+        · rw [hupd _ (by simp [hc])]; exact ih
+    | some p =>
+      have : toChange cast path pc = some ⟨pc.id, cast p, (getProp pc.cur path).bind cast⟩ := by
+        simp only [toChange, hp]; cases getProp pc.cur path <;> rfl
+      rw [List.filterMap_cons_some this]
+      refine Chain.cons ?_ ?_
+      · simp [hprev, hp]
+      · rw [hupd _ rfl]; exact ih
+
+theorem Chain.map (g : Bytes → Bytes) {vals vals' : Id → List Bytes} {chs : List (Change Bytes)}
+    (h : Chain vals chs vals') :
+    Chain (fun i => (vals i).map g) (chs.map (foldChange g)) (fun i => (vals' i).map g) := by
+  induction h with
+  | nil vals => exact Chain.nil _
+  | cons hprev _ ih =>
+    rename_i vals ch rest vals' _
+    simp only [List.map_cons]
+    refine Chain.cons ?_ ?_
+    · simp only [foldChange, hprev]; cases ch.prev <;> rfl
+    · have : upd (fun i => (vals i).map g) (foldChange g ch).id (foldChange g ch).cur.toList =
+          fun i => (upd vals ch.id ch.cur.toList i).map g := by
+        funext i; unfold upd foldChange
+        by_cases hi : i = ch.id
+        · simp only [hi, if_true]; cases ch.cur <;> rfl
+        · simp [hi]
+      rw [this]; exact ih
+
+theorem toArrChange_chain (path : List String) {D D' : Id → Option Val} {pcs : List PChange}
+    (h : PChain D pcs D') :
+    ArrChain (fun i => ((getProp (D i) path).map castArr).getD []) (pcs.filterMap (toArrChange path))
+      (fun i => ((getProp (D' i) path).map castArr).getD []) := by
+  induction h with
+  | nil D => exact ArrChain.nil _
+  | cons hprev _ ih =>
+    rename_i D pc rest D' _
+    have hupd : upd (fun i => ((getProp (D i) path).map castArr).getD []) pc.id (((getProp pc.cur path).map castArr).getD []) =
+        fun i => ((getProp (updD D pc.id pc.cur i) path).map castArr).getD [] := by
+      funext i; unfold upd updD
+      by_cases hi : i = pc.id <;> simp [hi]
+    by_cases hboth : getProp pc.prev path = none ∧ getProp pc.cur path = none
+    · have : toArrChange path pc = none := by simp [toArrChange, hboth.1, hboth.2]
+      rw [List.filterMap_cons_none this]
+      have hsame : (fun i => ((getProp (updD D pc.id pc.cur i) path).map castArr).getD []) =
+          fun i => ((getProp (D i) path).map castArr).getD [] := by
+        funext i; unfold updD
+        by_cases hi : i = pc.id
+        · subst hi; simp [hboth.1, hboth.2, hprev]
+        · simp [hi]
+      rw [hsame] at ih; exact ih
+    · have : toArrChange path pc = some ⟨pc.id, ((getProp pc.prev path).map castArr).getD [], ((getProp pc.cur path).map castArr).getD []⟩ := by
+        unfold toArrChange
+        cases hp : getProp pc.prev path <;> cases hc : getProp pc.cur path <;> simp_all
+      rw [List.filterMap_cons_some this]
+      refine ArrChain.cons ?_ ?_
+      · simp [hprev]
+      · simp only []; rw [hupd]; exact ih
+
+theorem ArrChain.map (g : Bytes → Bytes) {vals vals' : Id → List Bytes} {chs : List (ArrChange Bytes)}
+    (h : ArrChain vals chs vals') :
+    ArrChain (fun i => (vals i).map g) (chs.map (foldArrChange g)) (fun i => (vals' i).map g) := by
+  induction h with
+  | nil vals => exact ArrChain.nil _
+  | cons hprev _ ih =>
+    rename_i vals ch rest vals' _
+    simp only [List.map_cons]
+    refine ArrChain.cons ?_ ?_
+    · simp only [foldArrChange, hprev]
+    · have : upd (fun i => (vals i).map g) (foldArrChange g ch).id (foldArrChange g ch).cur =
+          fun i => (upd vals ch.id ch.cur i).map g := by
+        funext i; unfold upd foldArrChange
+        by_cases hi : i = ch.id <;> simp [hi]
+      rw [this]; exact ih
+
 end Sema.C02
